@@ -297,3 +297,376 @@ Definition cli_evaluate_model (Scr Th Pr PrT Ob Nm Ev : Type) (L : ev_lib Scr Th
   dor me <- ev_mk_eval L (ev_transpose L pred) (ev_observations L screen) (chain_ids_of (ev_n_thetas L) hs)
               (ev_sample_names L screen);
   Ok [(ev_output a, me)].
+
+(* ====================================================================================================================
+   The argument-handling glue: how command-line strings become the class and the parameter dict that the main()
+   models above take as the `*_mk_*` components.  Sources: cli/argument_parsing.py (KVAppendAction.__call__,
+   str_to_bool, cast_dict_to_type), introspection.py, and the statements of each get_args() after parser.parse_args().
+
+   A Python str is the list of its code points.  A dict with str / type-object keys is an insertion-ordered association
+   list (`kdict`, Lib/PyRt.v).  What argparse itself does (tokenising, calling the action once per occurrence of the
+   option, the plain conversions type=int / type=str) is NOT modelled: parser.parse_args() yields the raw namespace.
+
+   Library primitives (the record `pyprims`; theorems hold for EVERY such record): str.lower(), int(str), float(str),
+   and the call of any other annotation object on a string.  F = the type of float values, O = of the values such other
+   calls produce.
+
+   Error tags: 20 AssertionError (nargs), 21 argparse.ArgumentError ("could not parse argument ... as k=v format"),
+   22 ValueError of str_to_bool, 23 ValueError "empty separator", 24 ValueError of unpacking a list into two names,
+   25 KeyError (a KEY that is not a required __init__ argument), 26 TypeError ('NoneType' object is not callable: a
+   required argument without annotation; the empty marker takes no arguments), 29 TypeError "The given object is not a class.", 30 NameError of
+   create_instance, 31 ValueError "is not a subclass of"; 98 IndexError, 99 TypeError on None (Lib/PyRt.v). *)
+Definition str : Type := pystr.      (* Lib/PyRt.v: the list of code points; equality test PyRt.str_eqb *)
+
+(* ---------- str.split(sep, maxsplit) ---------- *)
+Fixpoint str_prefix (p s : str) : bool :=
+  match p, s with
+  | [], _ => true
+  | x :: p', y :: s' => (x =? y) && str_prefix p' s'
+  | _ :: _, [] => false
+  end.
+(* left-to-right scan: cur = the part collected so far (reversed), n = cuts still allowed (negative: no limit),
+   skip = characters of a separator occurrence still to pass over *)
+Fixpoint split_go (sep : str) (skip : nat) (n : Z) (cur : str) (s : str) : list str :=
+  match s with
+  | [] => [rev cur]
+  | x :: r =>
+      match skip with
+      | S k => split_go sep k n cur r
+      | O => if negb (n =? 0) && str_prefix sep s
+             then rev cur :: split_go sep (pred (length sep)) (n - 1) [] r
+             else split_go sep O n (x :: cur) r
+      end
+  end.
+(* s.split(sep, maxsplit): at most maxsplit cuts at the leftmost non-overlapping occurrences of sep; ValueError for "" *)
+Definition str_split (s sep : str) (maxsplit : Z) : result (list str) :=
+  match sep with [] => Err 23 | _ => Ok (split_go sep O maxsplit [] s) end.
+
+(* ---------- annotations, converters, parameter values ---------- *)
+(* the annotation object of an __init__ parameter, as far as cast_dict_to_type can tell them apart: the four builtin types
+   of its table, None (no annotation), the marker inspect.Parameter.empty (which get_required_init_args_with_annotations
+   replaces by None), any other object (numbered) *)
+Inductive ann : Type := ABool | AInt | AFloat | AStr | ANone | AEmpty | AOther (id : Z).      (* AEmpty: inspect.Parameter.empty *)
+Definition ann_eqb (a b : ann) : bool :=
+  match a, b with
+  | ABool, ABool | AInt, AInt | AFloat, AFloat | AStr, AStr | ANone, ANone | AEmpty, AEmpty => true
+  | AOther i, AOther j => i =? j
+  | _, _ => false
+  end.
+(* what the table `converters` holds and `.get(t, t)` returns: the function str_to_bool, or a type object (called) *)
+Inductive callable : Type := CStrToBool | CType (t : ann).
+(* a converted parameter value *)
+Inductive pval (F O : Type) : Type := VBool (b : bool) | VInt (z : Z) | VFloat (f : F) | VStr (s : str) | VOther (o : O).
+Arguments VBool {F O} b.
+Arguments VInt {F O} z.
+Arguments VFloat {F O} f.
+Arguments VStr {F O} s.
+Arguments VOther {F O} o.
+
+Record pyprims (F O : Type) := mk_pyprims {
+  p_lower : str -> str;                         (* s.lower() *)
+  p_int : str -> result Z;                      (* int(s) *)
+  p_float : str -> result F;                    (* float(s) *)
+  p_call_other : Z -> str -> result O }.        (* annotation object number n called on s *)
+
+(* f(s) for a value f of the converter table / an annotation; `stb` = the function str_to_bool.  bool(s) (never reached
+   through the table, which maps bool to str_to_bool) is "s is not empty". *)
+Definition call_callable (F O : Type) (P : pyprims F O) (stb : str -> result bool) (c : callable) (s : str)
+  : result (pval F O) :=
+  match c with
+  | CStrToBool => dor b <- stb s; Ok (VBool b)
+  | CType ABool => Ok (VBool (negb (is_nil s)))
+  | CType AInt => dor z <- p_int P s; Ok (VInt z)
+  | CType AFloat => dor f <- p_float P s; Ok (VFloat f)
+  | CType AStr => Ok (VStr s)
+  | CType ANone => Err 26
+  | CType AEmpty => Err 26
+  | CType (AOther n) => dor o <- p_call_other P n s; Ok (VOther o)
+  end.
+
+(* ---------- argument_parsing.str_to_bool ---------- *)
+Definition s_true : str := [116; 114; 117; 101].      Definition s_t : str := [116].
+Definition s_yes : str := [121; 101; 115].            Definition s_y : str := [121].
+Definition s_1 : str := [49].
+Definition s_false : str := [102; 97; 108; 115; 101]. Definition s_f : str := [102].
+Definition s_no : str := [110; 111].                  Definition s_n : str := [110].
+Definition s_0 : str := [48].
+Definition true_words : list str := [s_true; s_t; s_yes; s_y; s_1].
+Definition false_words : list str := [s_false; s_f; s_no; s_n; s_0].
+Definition str_in (s : str) (l : list str) : bool := existsb (str_eqb s) l.
+
+Definition str_to_bool (F O : Type) (P : pyprims F O) (s : str) : result bool :=
+  if str_in (p_lower P s) true_words then Ok true
+  else if str_in (p_lower P s) false_words then Ok false
+  else Err 22.
+
+(* ---------- argument_parsing.cast_dict_to_type ---------- *)
+Definition converters : list (ann * callable) :=
+  [(ABool, CStrToBool); (AInt, CType AInt); (AFloat, CType AFloat); (AStr, CType AStr)].
+(* the conversion of one value whose key has annotation t *)
+Definition convert (F O : Type) (P : pyprims F O) (t : ann) (v : str) : result (pval F O) :=
+  call_callable P (str_to_bool P) (kdict_get_default ann_eqb converters t (CType t)) v.
+(* items in the order of k_v_string; per item: the annotation lookup (KeyError 25), then the conversion; the first
+   exception aborts; a repeated key cannot occur in a dict *)
+Fixpoint cast_items (F O : Type) (P : pyprims F O) (types : list (str * ann)) (items : list (str * str))
+  (acc : list (str * pval F O)) : result (list (str * pval F O)) :=
+  match items with
+  | [] => Ok acc
+  | (k, v) :: r =>
+      dor t <- kdict_get str_eqb 25 types k;
+      dor x <- convert P t v;
+      cast_items P types r (kdict_set str_eqb acc k x)
+  end.
+Definition cast_dict (F O : Type) (P : pyprims F O) (k_v_string : list (str * str)) (k_v_types : list (str * ann))
+  : result (list (str * pval F O)) := cast_items P k_v_types k_v_string [].
+
+(* ---------- argument_parsing.KVAppendAction.__call__ ---------- *)
+(* the namespace seen at the action's destination attribute: None (argparse's default) or the dict accumulated so far;
+   `values` = the nargs=1 list of the option's words.  Note maxsplit = 2: a word with two or more '=' splits into three
+   parts and is REFUSED (the class docstring says "on the first ="). *)
+Definition s_eq : str := [61].
+Definition kv_append (dest : option (list (str * str))) (values : list str) : result (option (list (str * str))) :=
+  match values with
+  | [w] =>
+      match str_split w s_eq 2 with
+      | Ok [k; v] => Ok (Some (kdict_set str_eqb (opt_or_empty dest) k v))
+      | Ok _ => Err 21
+      | Err t => if zmem t [23; 24] then Err 21 else Err t
+      end
+  | _ => Err 20
+  end.
+(* argparse calls the action once per occurrence of the option, in command-line order, on the same namespace *)
+Fixpoint kv_parse (dest : option (list (str * str))) (words : list str) : result (option (list (str * str))) :=
+  match words with
+  | [] => Ok dest
+  | w :: r => dor d <- kv_append dest [w]; kv_parse d r
+  end.
+
+(* ---------- introspection.py, as the get_args() functions use it ---------- *)
+Inductive base_class : Type :=
+  BScorer | BPlatePolicy | BBayesianModel | BPlateGenerator | BInitialPlateGenerator | BPlateSmoother | BDistanceMetric.
+Record introspect (Cls : Type) := mk_introspect {
+  (* get_class(package_name, class_name, base_class): None = no module of the package has an attribute of that name *)
+  i_get_class : str -> str -> base_class -> result (option Cls);
+  (* get_required_init_args_with_annotations(x), x a class or None: name -> annotation of the __init__ parameters
+     without default, in signature order *)
+  i_required : option Cls -> result (list (str * ann)) }.
+Definition s_batchie : str := [98; 97; 116; 99; 104; 105; 101].
+
+(* the KEY=VALUE parameters of one class-valued option: {} when the option's dict is None or empty, else cast with the
+   required-argument annotations of the class found *)
+Definition cast_params (F O : Type) (P : pyprims F O) (param : option (list (str * str))) (required : list (str * ann))
+  : result (list (str * pval F O)) :=
+  match param with
+  | Some (x :: l) => cast_dict P (x :: l) required
+  | _ => Ok []
+  end.
+(* class lookup by name, required-argument annotations of what was found (TypeError when nothing was), cast *)
+Definition resolve (Cls F O : Type) (I : introspect Cls) (P : pyprims F O) (base : base_class) (name : str)
+  (param : option (list (str * str))) : result (option Cls * list (str * pval F O)) :=
+  dor c <- i_get_class I s_batchie name base;
+  dor req <- i_required I c;
+  dor ps <- cast_params P param req;
+  Ok (c, ps).
+
+(* ---------- the get_args() functions: the namespace after parser.parse_args(), then the post-processing ----------
+   A namespace is a record: the plain argparse results main() reads (the `*_args` record above), the class-valued
+   options' names and KEY=VALUE dicts as parse_args left them, and the attributes get_args() adds (`*_cls`: what
+   get_class returned, possibly None; `*_params`: the cast parameters).  An attribute get_args() has not stored is
+   represented by None / {} (reading it would be an AttributeError; main() reads it only under the test that stored it).
+   `cls( **params)` is the component `construct` (the named class instantiated with the cast parameters; it may raise);
+   calling None is a TypeError (Err 99). *)
+Definition instantiate (Cls V Obj : Type) (construct : Cls -> V -> result Obj) (c : option Cls) (params : V) : result Obj :=
+  dor k <- unwrap c; construct k params.
+
+(* calculate_scores *)
+Record cs_ns (Cls F O : Type) := mk_cs_ns {
+  cs_plain : cs_args;
+  cs_scorer : str;                                          (* --scorer *)
+  cs_scorer_param : option (list (str * str));              (* --scorer-param KEY=VALUE ... (KVAppendAction) *)
+  cs_scorer_cls : option Cls;
+  cs_scorer_params : list (str * pval F O) }.
+Definition cs_set_scorer_cls (Cls F O : Type) (a : cs_ns Cls F O) (c : option Cls) : cs_ns Cls F O :=
+  mk_cs_ns (cs_plain a) (cs_scorer a) (cs_scorer_param a) c (cs_scorer_params a).
+Definition cs_set_scorer_params (Cls F O : Type) (a : cs_ns Cls F O) (p : list (str * pval F O)) : cs_ns Cls F O :=
+  mk_cs_ns (cs_plain a) (cs_scorer a) (cs_scorer_param a) (cs_scorer_cls a) p.
+Definition cs_get_args (Cls F O : Type) (I : introspect Cls) (P : pyprims F O) (raw : cs_ns Cls F O)
+  : result (cs_ns Cls F O) :=
+  dor cp <- resolve I P BScorer (cs_scorer raw) (cs_scorer_param raw);
+  Ok (cs_set_scorer_params (cs_set_scorer_cls raw (fst cp)) (snd cp)).
+Definition cs_with_mk (Scr Pl Th Dm Sc H : Type) (L : cs_lib Scr Pl Th Dm Sc H) (mk : result Sc) : cs_lib Scr Pl Th Dm Sc H :=
+  mk_cs_lib (cs_load_screen L) (cs_plates L) (cs_is_observed L) (cs_plate_id L) mk (cs_load_thetas L) (cs_concat_thetas L)
+            (cs_load_dist L) (cs_concat_dist L) (cs_score_chunk L).
+(* the whole command: the scorer is the class named by --scorer, instantiated with the cast --scorer-param values *)
+Definition cli_calculate_scores_cmd (Cls F O Scr Pl Th Dm Sc H : Type) (I : introspect Cls) (P : pyprims F O)
+  (construct : Cls -> list (str * pval F O) -> result Sc) (L : cs_lib Scr Pl Th Dm Sc H) (mix : Z -> Z)
+  (raw : cs_ns Cls F O) : result (list (path * H)) :=
+  dor a <- cs_get_args I P raw;
+  cli_calculate_scores (cs_with_mk L (instantiate construct (cs_scorer_cls a) (cs_scorer_params a))) mix (cs_plain a).
+
+(* select_next_plate *)
+Record sn_ns (Cls F O : Type) := mk_sn_ns {
+  sn_plain : sn_args;                                       (* sn_policy: --policy, None when absent *)
+  sn_policy_param : option (list (str * str));
+  sn_policy_cls : option Cls;
+  sn_policy_params : list (str * pval F O) }.
+Definition sn_set_policy_cls (Cls F O : Type) (a : sn_ns Cls F O) (c : option Cls) : sn_ns Cls F O :=
+  mk_sn_ns (sn_plain a) (sn_policy_param a) c (sn_policy_params a).
+Definition sn_set_policy_params (Cls F O : Type) (a : sn_ns Cls F O) (p : list (str * pval F O)) : sn_ns Cls F O :=
+  mk_sn_ns (sn_plain a) (sn_policy_param a) (sn_policy_cls a) p.
+Definition sn_get_args (Cls F O : Type) (I : introspect Cls) (P : pyprims F O) (raw : sn_ns Cls F O)
+  : result (sn_ns Cls F O) :=
+  match sn_policy (sn_plain raw) with
+  | Some name =>
+      dor cp <- resolve I P BPlatePolicy name (sn_policy_param raw);
+      Ok (sn_set_policy_params (sn_set_policy_cls raw (fst cp)) (snd cp))
+  | None => Ok (sn_set_policy_params (sn_set_policy_cls raw None) [])
+  end.
+Definition sn_with_mk (Scr Pl Po H : Type) (L : sn_lib Scr Pl Po H) (mk : result Po) : sn_lib Scr Pl Po H :=
+  mk_sn_lib (sn_load_screen L) mk (sn_load_scores L) (sn_concat_scores L) (sn_select L) (sn_plate_id L).
+Definition cli_select_next_plate_cmd (Cls F O Scr Pl Po H : Type) (I : introspect Cls) (P : pyprims F O)
+  (construct : Cls -> list (str * pval F O) -> result Po) (L : sn_lib Scr Pl Po H) (mix : Z -> Z)
+  (raw : sn_ns Cls F O) : result (list (path * Z)) :=
+  dor a <- sn_get_args I P raw;
+  cli_select_next_plate (sn_with_mk L (instantiate construct (sn_policy_cls a) (sn_policy_params a))) mix (sn_plain a).
+
+(* train_model *)
+Record tm_ns (Cls F O : Type) := mk_tm_ns {
+  tm_plain : tm_args;
+  tm_model : str;                                           (* --model *)
+  tm_model_param : option (list (str * str));
+  tm_model_cls : option Cls;
+  tm_model_params : list (str * pval F O) }.
+Definition tm_set_model_cls (Cls F O : Type) (a : tm_ns Cls F O) (c : option Cls) : tm_ns Cls F O :=
+  mk_tm_ns (tm_plain a) (tm_model a) (tm_model_param a) c (tm_model_params a).
+Definition tm_set_model_params (Cls F O : Type) (a : tm_ns Cls F O) (p : list (str * pval F O)) : tm_ns Cls F O :=
+  mk_tm_ns (tm_plain a) (tm_model a) (tm_model_param a) (tm_model_cls a) p.
+Definition tm_get_args (Cls F O : Type) (I : introspect Cls) (P : pyprims F O) (raw : tm_ns Cls F O)
+  : result (tm_ns Cls F O) :=
+  dor cp <- resolve I P BBayesianModel (tm_model raw) (tm_model_param raw);
+  Ok (tm_set_model_cls (tm_set_model_params raw (snd cp)) (fst cp)).
+Definition tm_with_construct (Scr Sub Sp Pa Mo Th : Type) (L : tm_lib Scr Sub Sp Pa Mo Th) (c : Pa -> result Mo)
+  : tm_lib Scr Sub Sp Pa Mo Th :=
+  mk_tm_lib (tm_load_screen L) (tm_from_screen L) (tm_set_space L) c (tm_new_holder L) (tm_subset_observed L)
+            (tm_add_observations L) (tm_sample L).
+(* the model is the class named by --model, instantiated with the cast --model-param values plus the experiment space *)
+Definition cli_train_model_cmd (Cls F O Scr Sub Sp Mo Th : Type) (I : introspect Cls) (P : pyprims F O)
+  (construct : Cls -> list (str * pval F O) -> result Mo) (L : tm_lib Scr Sub Sp (list (str * pval F O)) Mo Th)
+  (raw : tm_ns Cls F O) : result (list (path * Th)) :=
+  dor a <- tm_get_args I P raw;
+  cli_train_model (tm_with_construct L (instantiate construct (tm_model_cls a))) (tm_model_params a) (tm_plain a).
+
+(* prepare_retrospective_simulation: three class-valued options, each optional *)
+Record pr_opt (Cls F O : Type) := mk_pr_opt {
+  po_param : option (list (str * str));                     (* --<x>-param KEY=VALUE ... *)
+  po_cls : option Cls;                                      (* args.<x>_cls *)
+  po_params : list (str * pval F O) }.                      (* args.<x>_params *)
+Record pr_ns (Cls F O : Type) := mk_pr_ns {
+  pr_plain : pr_args;                                       (* the three option names are pr_plate_generator ... *)
+  pr_pg : pr_opt Cls F O;                                   (* --plate-generator *)
+  pr_ig : pr_opt Cls F O;                                   (* --initial-plate-generator *)
+  pr_ps : pr_opt Cls F O }.                                 (* --plate-smoother *)
+Definition po_set_cls (Cls F O : Type) (o : pr_opt Cls F O) (c : option Cls) : pr_opt Cls F O :=
+  mk_pr_opt (po_param o) c (po_params o).
+Definition po_set_params (Cls F O : Type) (o : pr_opt Cls F O) (p : list (str * pval F O)) : pr_opt Cls F O :=
+  mk_pr_opt (po_param o) (po_cls o) p.
+Definition pr_set_pg (Cls F O : Type) (a : pr_ns Cls F O) (o : pr_opt Cls F O) : pr_ns Cls F O :=
+  mk_pr_ns (pr_plain a) o (pr_ig a) (pr_ps a).
+Definition pr_set_ig (Cls F O : Type) (a : pr_ns Cls F O) (o : pr_opt Cls F O) : pr_ns Cls F O :=
+  mk_pr_ns (pr_plain a) (pr_pg a) o (pr_ps a).
+Definition pr_set_ps (Cls F O : Type) (a : pr_ns Cls F O) (o : pr_opt Cls F O) : pr_ns Cls F O :=
+  mk_pr_ns (pr_plain a) (pr_pg a) (pr_ig a) o.
+(* one option: untouched when absent, else class and cast parameters stored *)
+Definition pr_resolve_opt (Cls F O : Type) (I : introspect Cls) (P : pyprims F O) (base : base_class) (name : option cname)
+  (o : pr_opt Cls F O) : result (pr_opt Cls F O) :=
+  match name with
+  | Some n => dor cp <- resolve I P base n (po_param o); Ok (po_set_params (po_set_cls o (fst cp)) (snd cp))
+  | None => Ok o
+  end.
+(* in source order: plate generator, initial plate generator, plate smoother - each cast with ITS OWN class's annotations *)
+Definition pr_get_args (Cls F O : Type) (I : introspect Cls) (P : pyprims F O) (raw : pr_ns Cls F O)
+  : result (pr_ns Cls F O) :=
+  dor g <- pr_resolve_opt I P BPlateGenerator (pr_plate_generator (pr_plain raw)) (pr_pg raw);
+  dor i <- pr_resolve_opt I P BInitialPlateGenerator (pr_initial_plate_generator (pr_plain raw)) (pr_ig raw);
+  dor s <- pr_resolve_opt I P BPlateSmoother (pr_plate_smoother (pr_plain raw)) (pr_ps raw);
+  Ok (mk_pr_ns (pr_plain raw) g i s).
+Definition pr_with_mk (Scr Pl Ig Pg Ps : Type) (L : pr_lib Scr Pl Ig Pg Ps) (mi : result Ig) (mg : result Pg) (ms : result Ps)
+  : pr_lib Scr Pl Ig Pg Ps :=
+  mk_pr_lib (pr_load_screen L) (pr_filter L) mi (pr_initial L) (pr_mask L) mg (pr_generate L) (pr_plates L) (pr_is_observed L)
+            (pr_plate_id L) (pr_plate_size L) (pr_choice L) (pr_reveal L) ms (pr_smooth L) (pr_n_plates L) (pr_size L)
+            (pr_holdout L).
+Definition cli_prepare_cmd (Cls F O Scr Pl Ig Pg Ps : Type) (I : introspect Cls) (P : pyprims F O)
+  (construct_ig : Cls -> list (str * pval F O) -> result Ig) (construct_pg : Cls -> list (str * pval F O) -> result Pg)
+  (construct_ps : Cls -> list (str * pval F O) -> result Ps) (L : pr_lib Scr Pl Ig Pg Ps) (mix : Z -> Z)
+  (raw : pr_ns Cls F O) : result (list (path * Scr)) :=
+  dor a <- pr_get_args I P raw;
+  cli_prepare (pr_with_mk L (instantiate construct_ig (po_cls (pr_ig a)) (po_params (pr_ig a)))
+                            (instantiate construct_pg (po_cls (pr_pg a)) (po_params (pr_pg a)))
+                            (instantiate construct_ps (po_cls (pr_ps a)) (po_params (pr_ps a))))
+              mix (pr_plain a).
+
+(* ---------- introspection.py itself, over the importlib / pkgutil / inspect primitives ----------
+   Mod = module objects, Obj = any Python object a module attribute may hold.  pkgutil.walk_packages is the finite list of
+   the module names it yields (its laziness, and an exception from importing a sub-package while walking, are not
+   represented); importlib.import_module may raise (any tag). *)
+Record sigparam := mk_sigparam {
+  sp_no_default : bool;                          (* param.default == inspect.Parameter.empty *)
+  sp_annotation : ann }.                         (* param.annotation (AEmpty when there is none) *)
+Record pyworld (Mod Obj : Type) := mk_pyworld {
+  w_import : str -> result Mod;                  (* importlib.import_module(name) *)
+  w_walk : Mod -> str -> list str;               (* [name for _, name, _ in pkgutil.walk_packages(pkg.__path__, prefix + ".")] *)
+  w_getattr : Mod -> str -> option Obj;          (* getattr(module, name, None) *)
+  w_truthy : Obj -> bool;                        (* bool(o) *)
+  w_issubclass : Obj -> base_class -> result bool;      (* issubclass(o, base): TypeError when o is not a class *)
+  w_isclass : Obj -> bool;                       (* inspect.isclass(o) *)
+  w_signature : Obj -> result (list (str * sigparam)) }.   (* inspect.signature(o.__init__).parameters, in signature order *)
+Definition s_self : str := [115; 101; 108; 102].
+Definition opt_isclass (Mod Obj : Type) (W : pyworld Mod Obj) (c : option Obj) : bool :=
+  match c with Some o => w_isclass W o | None => false end.
+
+(* get_class: the modules of the package in walk order; the first truthy attribute of that name decides (ValueError 31 when
+   it is not a subclass of the base class); None when no module has one *)
+Fixpoint find_class (Mod Obj : Type) (W : pyworld Mod Obj) (name : str) (base : base_class) (mods : list str)
+  : result (option Obj) :=
+  match mods with
+  | [] => Ok None
+  | m :: r =>
+      dor md <- w_import W m;
+      match w_getattr W md name with
+      | Some o =>
+          if w_truthy W o
+          then dor b <- w_issubclass W o base; if b then Ok (Some o) else Err 31
+          else find_class W name base r
+      | None => find_class W name base r
+      end
+  end.
+Definition get_class (Mod Obj : Type) (W : pyworld Mod Obj) (package_name class_name : str) (base : base_class)
+  : result (option Obj) :=
+  dor p <- w_import W package_name; find_class W class_name base (w_walk W p package_name).
+
+(* create_instance: NameError (30) when nothing (or something falsy) was found *)
+Definition create_instance (Mod Obj V Inst : Type) (W : pyworld Mod Obj) (construct : Obj -> V -> result Inst)
+  (package_name class_name : str) (base : base_class) (kwargs : V) : result Inst :=
+  dor c <- get_class W package_name class_name base;
+  match c with
+  | Some o => if w_truthy W o then construct o kwargs else Err 30
+  | None => Err 30
+  end.
+
+(* get_required_init_args_with_annotations: the parameters other than "self" that have no default, in signature order,
+   each with its annotation, None standing for "no annotation" *)
+Definition required_step (d : list (str * ann)) (np : str * sigparam) : list (str * ann) :=
+  if str_eqb (fst np) s_self then d
+  else if sp_no_default (snd np)
+       then kdict_set str_eqb d (fst np)
+                      (if negb (ann_eqb (sp_annotation (snd np)) AEmpty) then sp_annotation (snd np) else ANone)
+       else d.
+Definition required_args (Mod Obj : Type) (W : pyworld Mod Obj) (c : option Obj) : result (list (str * ann)) :=
+  match c with
+  | Some o => if w_isclass W o then dor ps <- w_signature W o; Ok (fold_left required_step ps []) else Err 29
+  | None => Err 29
+  end.
+
+(* the introspection record the get_args() models take, made of the functions above *)
+Definition introspect_of (Mod Obj : Type) (W : pyworld Mod Obj) : introspect Obj :=
+  mk_introspect (get_class W) (required_args W).
